@@ -94,7 +94,7 @@ impl Ex {
             Ex::Addr(n, i) => format!("{n}[{i}]"),
             Ex::Fn(f, e) => format!("{}({})", FUN_NAMES[*f as usize], e.source()),
             Ex::Pre(p, e) => format!("({}{})", if *p == 0 { "-" } else { "+" }, e.source()),
-            Ex::In(o, l, r) => format!("({}{}{})", l.source(), IN_NAMES[*o as usize], r.source()),
+            Ex::In(o, l, r) => format!("({} {} {})", l.source(), IN_NAMES[*o as usize], r.source()),
         }
     }
     pub fn size(&self) -> usize {
